@@ -69,31 +69,41 @@ func FuzzC15(f *testing.F) {
 
 // FuzzC19: any file text, reported line and column against the excerpt validator.
 func FuzzC19(f *testing.F) {
-	f.Add("package p\n\tx.y = 1 // tab before\nlast", uint8(1), uint16(4), uint8(0), false)
-	f.Add(strings.Repeat("abcdefghij", 45), uint8(0), uint16(300), uint8(0), true)
-	f.Add("é日本→ x\n"+strings.Repeat("w ", 150)+"\n", uint8(1), uint16(199), uint8(0), false)
-	f.Add("short", uint8(0), uint16(1), uint8(1), false)
-	f.Add("a\nb\nc", uint8(2), uint16(1), uint8(2), false)
-	f.Fuzz(func(t *testing.T, text string, lineSel uint8, colSel uint16, modeSel uint8, noFinalNL bool) {
+	tall := strings.Repeat("x()\n", 101)
+	f.Add("package p\n\tx.y = 1 // tab before\nlast", uint8(1), uint16(4), uint8(0), false, uint8(0), uint16(0))
+	f.Add(strings.Repeat("abcdefghij", 45), uint8(0), uint16(300), uint8(0), true, uint8(0), uint16(0))
+	f.Add("é日本→ x\n"+strings.Repeat("w ", 150)+"\n", uint8(1), uint16(199), uint8(0), false, uint8(1), uint16(3))
+	f.Add("short", uint8(0), uint16(1), uint8(1), false, uint8(0), uint16(0))
+	f.Add("a\nb\nc", uint8(2), uint16(1), uint8(2), false, uint8(0), uint16(0))
+	f.Add(tall, uint8(98), uint16(1), uint8(0), false, uint8(100), uint16(2))
+	f.Add(tall, uint8(8), uint16(2), uint8(0), false, uint8(10), uint16(1))
+	f.Fuzz(func(t *testing.T, text string, lineSel uint8, colSel uint16, modeSel uint8, noFinalNL bool, thenLine uint8, thenCol uint16) {
 		if !utf8.ValidString(text) || strings.ContainsAny(text, "\r\x00") || len(text) > 1<<17 {
 			return // source files are valid UTF-8 without NUL; CR handling is not part of the statement
 		}
 		lines := strings.Split(strings.ReplaceAll(text, "...", "._."), "\n")
-		if len(lines) > 8 {
-			lines = lines[:8]
+		if len(lines) > 130 {
+			lines = lines[:130]
 		}
-		ln := int(lineSel)%len(lines) + 1
-		src := lines[ln-1]
-		var starts []int
-		for i := range src {
-			starts = append(starts, i)
+		at := func(lineSel int, colSel int) c19Pos {
+			ln := lineSel%len(lines) + 1
+			src := lines[ln-1]
+			var starts []int
+			for i := range src {
+				starts = append(starts, i)
+			}
+			starts = append(starts, len(src))
+			return c19Pos{ln, starts[colSel%len(starts)] + 1}
 		}
-		starts = append(starts, len(src))
-		col := starts[int(colSel)%len(starts)] + 1
+		p0 := at(int(lineSel), int(colSel))
 		mode := []string{"ok", "ok", "ok", "error", "short"}[int(modeSel)%5]
-		c := c19Case{Lines: lines, Line: ln, Col: col, ReadMode: mode, NoFinalNL: noFinalNL}
+		c := c19Case{Lines: lines, Line: p0.Line, Col: p0.Col, ReadMode: mode, NoFinalNL: noFinalNL}
+		if mode == "ok" && thenLine != 0 {
+			// a second report on the same file through the same reporter
+			c.Seq = []c19Pos{at(int(thenLine), int(thenCol))}
+		}
 		if why := c19Check(c); why != "" {
-			fuzzViolation(t, "C19", "c19", "fuzz", len(text), c, fmt.Sprintf("line %d col %d of %d lines (%s): %s", ln, col, len(lines), mode, why))
+			fuzzViolation(t, "C19", "c19", "fuzz", len(text), c, fmt.Sprintf("line %d col %d of %d lines (%s) then %v: %s", p0.Line, p0.Col, len(lines), mode, c.Seq, why))
 		}
 	})
 }
